@@ -175,7 +175,7 @@ def analyse_function(params, body, module_defined, static_chain, is_module=False
             for a in f:
                 mentioned(a, acc)
 
-    def walk(forms, letbound, comp_own):
+    def walk(forms, letbound, comp_own, innermost=frozenset()):
         for f in forms:
             k = f[0]
             if k == "ref":
@@ -196,7 +196,7 @@ def analyse_function(params, body, module_defined, static_chain, is_module=False
                 for x, e in f[1]:
                     walk([e], lb, comp_own)
                     lb = lb | {x}
-                walk(f[2], lb, comp_own)
+                walk(f[2], lb, comp_own, frozenset(x for x, _ in f[1]))
             elif k == "defn":
                 if f[1] in letbound:
                     raise Ambiguous("defn of a let-bound name (hoisting)")
@@ -223,6 +223,8 @@ def analyse_function(params, body, module_defined, static_chain, is_module=False
                 if is_module:
                     raise Ambiguous("declaration outside a function")
                 for x in f[1]:
+                    if k == "nonlocal" and x in innermost:
+                        raise Ambiguous("nonlocal of a name bound by the very let it is written in")
                     if k == "nonlocal" and x in letbound:
                         continue  # already means the let binding of this function
                     if k == "global" and x in letbound:
@@ -587,7 +589,7 @@ class Gen:
             body = self.statements(depth + 1, budget - 1, in_fn, callable_fns)
             if in_fn and self.flavour == "c07" and r.random() < 0.25:
                 # a declaration inside a let (elision of names bound by outer lets of the same function)
-                bound_here = {x for x, _ in binds}
+                bound_here = {x for x, _ in binds} if r.random() < 0.8 else set()
                 names = [x for x in r.sample(POOL, r.randint(1, 3)) if x not in bound_here]
                 if names:
                     body = [("nonlocal" if r.random() < 0.75 else "global", names)] + body
